@@ -799,9 +799,22 @@ func (e *Engine) loopEnter(s *State, fn *ssa.Function, l *loop) {
 	}
 	pos := l.header.Instrs[0].Pos()
 	for k, inv := range invs {
-		t := e.evalBool(s, e.specCtx(s, fn), inv.Expr)
+		cx := e.specCtx(s, fn)
+		cx.LoopSnap = s.Heap // at entry the current heap is the loop-entry heap
+		t := e.evalBool(s, cx, inv.Expr)
 		e.assert(s, e.loopName(s, l, "inv-init", k), "inv-init", pos, inv.Text, t)
 	}
+	// snapshot for loopentry()
+	snap := map[string]string{}
+	for k, v := range s.Heap {
+		snap[k] = v
+	}
+	nl := map[*ssa.BasicBlock]map[string]string{}
+	for k, v := range s.LoopHeap {
+		nl[k] = v
+	}
+	nl[l.header] = snap
+	s.LoopHeap = nl
 	// havoc everything the loop may modify
 	mods := e.loopMods(fn, l)
 	for _, al := range mods.allocs {
@@ -844,13 +857,21 @@ func (e *Engine) loopEnter(s *State, fn *ssa.Function, l *loop) {
 						st.V = e.declare(s, "visited", "(Array "+ks+" Bool)")
 						// V subset of dom
 						s.add(fmt.Sprintf("(assert (forall ((k!q %s)) (=> (select %s k!q) (select %s k!q))))", ks, st.V, st.Dom0))
+						if st.Vals0 != "" {
+							for _, f := range e.foldsFor(st.MT) {
+								sym := e.foldSym(f, st.MT)
+								s.assume(and(app(">=", app(sym, st.V, st.Vals0), "0"), app("<=", app(sym, st.V, st.Vals0), app(sym, st.Dom0, st.Vals0))))
+							}
+						}
 					}
 				}
 			}
 		}
 	}
 	for _, inv := range invs {
-		t := e.evalBool(s, e.specCtx(s, fn), inv.Expr)
+		cx := e.specCtx(s, fn)
+		cx.LoopSnap = s.LoopHeap[l.header]
+		t := e.evalBool(s, cx, inv.Expr)
 		s.assume(t)
 	}
 	if dec != nil {
@@ -876,7 +897,9 @@ func (e *Engine) loopBack(s *State, fn *ssa.Function, l *loop) {
 	}
 	pos := l.header.Instrs[0].Pos()
 	for k, inv := range c.LoopInv[l.ordinal] {
-		t := e.evalBool(s, e.specCtx(s, fn), inv.Expr)
+		cx := e.specCtx(s, fn)
+		cx.LoopSnap = s.LoopHeap[l.header]
+		t := e.evalBool(s, cx, inv.Expr)
 		e.assert(s, e.loopName(s, l, "inv-keep", k), "inv-keep", pos, inv.Text, t)
 	}
 	if d, ok := c.LoopDec[l.ordinal]; ok {
